@@ -2789,9 +2789,18 @@ def r15(ctx):
 
     # reader: the sequence of line reads in evaluation order, helpers that are handed the reader inlined;
     # a readline inside a loop is a "skip blank lines" scan, a plain one consumes exactly one line
-    def ops_of(f: FuncInfo, rname: str, depth: int, in_loop: bool):
+    def ops_of(f: FuncInfo, rname: str, depth: int, in_loop: bool, env: Optional[Dict[str, Any]] = None):
+        """env: parameters of f bound to constants at the call site (or by their defaults): a step guarded by the
+        truth of such a parameter is only taken when the constant says so (`skip_blank=False`)."""
         out = []
+        env = env or {}
         for c in (x for x in walk(f.node) if isinstance(x, ast.Call)):
+            dead = False
+            for e, pol in facts(c, f.node):
+                if isinstance(e, ast.Name) and e.id in env and bool(env[e.id]) != pol:
+                    dead = True
+            if dead:
+                continue
             looped = in_loop or any(isinstance(a, (ast.While, ast.For, ast.AsyncFor)) for a in ancestors(c) if a is not f.node)
             if isinstance(c.func, ast.Attribute) and ap(c.func.value) == rname and c.func.attr == "readline":
                 out.append(("scan" if looped else "line", f, c))
@@ -2804,7 +2813,29 @@ def r15(ctx):
                         hp = hp[1:]
                     idx = next(i for i, a in enumerate(c.args) if ap(a) == rname)
                     if idx < len(hp):
-                        out.extend(ops_of(h, hp[idx], depth + 1, looped))
+                        # constants the helper's other parameters are bound to: defaults, then the call's arguments
+                        henv: Dict[str, Any] = {}
+                        hargs = h.node.args
+                        pos = [a.arg for a in list(hargs.posonlyargs) + list(hargs.args)]
+                        for pname, dflt in zip(pos[len(pos) - len(hargs.defaults):], hargs.defaults):
+                            if isinstance(dflt, ast.Constant):
+                                henv[pname] = dflt.value
+                        for ka, kd in zip(hargs.kwonlyargs, hargs.kw_defaults):
+                            if isinstance(kd, ast.Constant):
+                                henv[ka.arg] = kd.value
+                        for i, a in enumerate(c.args):
+                            if i < len(hp):
+                                if isinstance(a, ast.Constant):
+                                    henv[hp[i]] = a.value
+                                else:
+                                    henv.pop(hp[i], None)
+                        for k in c.keywords:
+                            if k.arg:
+                                if isinstance(k.value, ast.Constant):
+                                    henv[k.arg] = k.value.value
+                                else:
+                                    henv.pop(k.arg, None)
+                        out.extend(ops_of(h, hp[idx], depth + 1, looped, henv))
         return out
     seq = ops_of(rd, _first_params(rd)[1], 0, False)
     lines = [i for i, o in enumerate(seq) if o[0] == "line"]
